@@ -1,4 +1,8 @@
 import HexProofs.Numeric.Simple
+import HexProofs.Numeric.SeriesInputsMACD
+import HexProofs.Numeric.SeriesInputsSTOCH
+import HexProofs.Numeric.SeriesInputsTSI
+import HexProofs.Numeric.SeriesInputsADX
 import HexProofs.Numeric.SeriesInputsRSI
 import HexProofs.Numeric.Channel
 import HexProofs.Numeric.Bars
@@ -1049,5 +1053,134 @@ theorem C06_chained_partial_holds : C06_chained_partial := Numeric.c06_chained_p
 
 /-- the same shape for ROC (`DirectOK (p+1) n (rocAt x p)`, inputs non-zero) -/
 theorem C06_ROC_inputs_holds : Numeric.C06RocStatement := Numeric.c06_roc
+
+/-- **MACD over a late-starting foreign input, every candle list** (the MACD item of the corrected
+`C06_chained_FULL`): same `MacdCandleOK` as `macdOut_ok`, at the index counted from `t0` -/
+theorem C06_MACD_inputs_holds : Numeric.C06MacdStatement := Numeric.c06_macd_inputs
+
+/-- … the exact rows through the engine (nothing but the four entries of the tree changes) -/
+theorem C06_MACD_inputs_rows {K : Type} [Field K] [LinearOrder K] [IsStrictOrderedRing K] [LawfulPyF K]
+    (nm input : String) (n pf ps pg t0 : Nat) (cs : List (Candle K)) (r : Nat → Num K)
+    (hf : 2 ≤ pf) (hfs : pf ≤ ps) (hg : 1 ≤ pg) (hn : MacdNames nm) (hi : Numeric.macdI_Input nm input)
+    (habs : ∀ c ∈ cs, Numeric.macdI_Absent nm c)
+    (hnone : ∀ j, j < cs.length → j < t0 → readingByCandle (cs.getD j default) input = .none)
+    (hnum : ∀ j, j < cs.length → t0 ≤ j → readingByCandle (cs.getD j default) input = .num (r (j - t0))) :
+    ∃ (vs1 vs2 : List (Val K)) (rows : List (Option (Val K) × Val K)),
+      vs1.length = cs.length ∧ vs2.length = cs.length ∧ rows.length = cs.length ∧
+      engineCalc (mkTop (.macd (pf : Int) (ps : Int) (pg : Int) input : Kind K) nm n) cs
+        = .ok (decoWith (Numeric.macdI_out nm)
+            (decoWith (Numeric.keyOut true (nm ++ "_EMA_slow")) (decoWith (Numeric.keyOut true (nm ++ "_EMA_fast")) cs vs1) vs2) rows) ∧
+      ∀ j, j < cs.length →
+        vs1.getD j .none = Numeric.macdI_col pf t0 (fun k => (r k).toF) j ∧
+        vs2.getD j .none = Numeric.macdI_col ps t0 (fun k => (r k).toF) j ∧
+        rows.getD j (none, .none)
+          = (Numeric.macdI_sigD n pf ps pg t0 (fun k => (r k).toF) j, Numeric.macdI_own n pf ps pg t0 (fun k => (r k).toF) j) :=
+  Numeric.macdI_inputs_rows nm input n pf ps pg t0 cs r hf hfs hg hn hi habs hnone hnum
+
+end Hex.C06
+
+#print axioms Hex.C06.C06_MACD_inputs_holds
+#print axioms Hex.C06.C06_MACD_inputs_rows
+
+namespace Hex.C06
+open Hex Hex.Numeric
+variable {K : Type} [Field K] [LinearOrder K] [IsStrictOrderedRing K] [LawfulPyF K]
+
+/-- **STOCH over a late-starting foreign input, every candle list** (`Numeric.C06StochStatement`; note the
+constructor order `.stoch period slow smoothK input`).  The candle list may hold any readings under other
+names (the four names `nm`, `nm_data`, `nm_k`, `nm_d` absent); the input is any name that does not see
+those four names, `None` on the first `t0` candles and numeric (`x`, counted from `t0`) afterwards.  The
+engine never raises and candle `j` satisfies `StochIOK` – a TWO-START series: the lowest low / highest high
+are those of candles `j−p+1 … j` of `cs` (candle fields, not shifted), the guard `reading_period(period,
+input)` is asked of the INPUT, so the raw value `100·(x_{j−t0} − LL_j)/(HH_j − LL_j)` exists from `t0 + p − 1` on
+(own dict of three `None`s and nothing else before), `%K` from `t0 + p + smoothK − 2`, `%D` from
+`t0 + p + smoothK + slow − 3`, with the budgets of `StochOK` counted from these starts; every reading name that
+does not see the four names reads what it read before. -/
+theorem stoch_inputs : Numeric.C06StochStatement := Numeric.c06_stoch_inputs
+
+/-- … exact rows: the result is `cs` with the row `stochI_Row … j` stored on candle `j` -/
+theorem stoch_inputs_rows (p sk sl : Nat) (hp : 2 ≤ p) (hsk : 1 ≤ sk) (hsl : 1 ≤ sl) (nm input : String)
+    (n t0 : Nat) (cs : List (Candle K)) (r : Nat → Num K) (hn : StochNames nm) (hi : StochIInput nm input)
+    (habs : ∀ c ∈ cs, StochIAbsent nm c)
+    (hnone : ∀ j, j < cs.length → j < t0 → readingByCandle (cs.getD j default) input = .none)
+    (hnum : ∀ j, j < cs.length → t0 ≤ j → readingByCandle (cs.getD j default) input = .num (r (j - t0))) :
+    ∃ rows : List (Option (Val K × Val K × Val K) × Val K), rows.length = cs.length ∧
+      engineCalc (mkTop (.stoch (p : Int) (sl : Int) (sk : Int) input : Kind K) nm n) cs
+        = .ok (decoWith (stochOut nm n) cs rows) ∧
+      ∀ j, j < cs.length → rows.getD j (none, stochNone)
+        = stochI_Row p sk sl t0 (fieldAt (·.l) cs) (fieldAt (·.h) cs) (fun k => (r k).toF) j :=
+  Numeric.stochI_inputs_rows p sk sl hp hsk hsl nm input n t0 cs r hn hi habs hnone hnum
+
+/-- … for `t0 = 0` the two-start statement is the raw `StochOK` (and the rows are `stRow`:
+`Numeric.stochI_Row_zero`), now over every candle list and every numeric input column -/
+theorem stoch_inputs_zero (p sk sl : Nat) (nm input : String) (n : Nat) (cs : List (Candle K)) (x : Nat → K)
+    (hp : 2 ≤ p) (hsk : 1 ≤ sk) (hsl : 1 ≤ sl) (hn : StochNames nm) (hi : StochIInput nm input)
+    (habs : ∀ c ∈ cs, StochIAbsent nm c)
+    (hin : ∀ j, j < cs.length →
+      (match readingByCandle (cs.getD j default) input with
+        | .s (.num r) => some r.toF
+        | _ => none) = some (x j)) :
+    ∃ out : List (Candle K),
+      engineCalc (mkTop (.stoch (p : Int) (sl : Int) (sk : Int) input : Kind K) nm n) cs = .ok out ∧
+      out.length = cs.length ∧
+      ∀ j, j < cs.length →
+        StochOK n p sk sl (fieldAt (·.l) cs) (fieldAt (·.h) cs) x j
+          (readingByCandle (out.getD j default) nm) (readingByCandle (out.getD j default) (nm ++ "_data"))
+          (readingByCandle (out.getD j default) (nm ++ "_k")) (readingByCandle (out.getD j default) (nm ++ "_d")) :=
+  Numeric.c06_stoch_inputs_zero p sk sl nm input n cs x hp hsk hsl hn hi habs hin
+
+/-- … ranges: where `low ≤ input ≤ high` on the candles that carry a raw value -/
+theorem stoch_inputs_ranges (n p sk sl t0 : Nat) (lo hi x : Nat → K) (hp : 2 ≤ p) (hsk : 1 ≤ sk) (hsl : 1 ≤ sl)
+    (j : Nat) (hw : ∀ i, t0 + p ≤ i + 1 → i ≤ j → lo i ≤ x (i - t0) ∧ x (i - t0) ≤ hi i) (own data k d : Val K)
+    (h : StochIOK n p sk sl t0 lo hi x j own data k d) :
+    (t0 + p ≤ j + 1 → ∃ y, own.nested "stoch" = .flt y ∧ 0 ≤ y ∧ y ≤ 100) ∧
+    (stochTK (t0 + p) sk ≤ j →
+      (∃ y, k = .flt y ∧ -stochBK K (t0 + p) sk j ≤ y ∧ y ≤ 100 + stochBK K (t0 + p) sk j) ∧
+      (∃ y, own.nested "k" = .flt y ∧ -(eps K n + stochBK K (t0 + p) sk j) ≤ y ∧
+        y ≤ 100 + (eps K n + stochBK K (t0 + p) sk j))) ∧
+    (stochTD (t0 + p) sk sl ≤ j →
+      (∃ y, d = .flt y ∧ -stochBD K (t0 + p) sk sl j ≤ y ∧ y ≤ 100 + stochBD K (t0 + p) sk sl j) ∧
+      (∃ y, own.nested "d" = .flt y ∧ -(eps K n + stochBD K (t0 + p) sk sl j) ≤ y ∧
+        y ≤ 100 + (eps K n + stochBD K (t0 + p) sk sl j))) :=
+  Numeric.stochI_ranges n p sk sl t0 lo hi x hp hsk hsl j hw own data k d h
+
+end Hex.C06
+
+#print axioms Hex.C06.stoch_inputs
+#print axioms Hex.C06.stoch_inputs_rows
+#print axioms Hex.C06.stoch_inputs_zero
+#print axioms Hex.C06.stoch_inputs_ranges
+
+namespace Hex.C06
+open Hex Hex.Numeric
+theorem C06_TSI_inputs_holds : Numeric.C06TsiStatement := Numeric.c06_tsi_inputs
+
+theorem tsi_inputs_rows {K : Type} [Field K] [LinearOrder K] [IsStrictOrderedRing K] [LawfulPyF K]
+    (p s : Nat) (hp : 1 ≤ p) (hs : 1 ≤ s) (nm input : String) (n t0 : Nat)
+    (cs : List (Candle K)) (r : Nat → Num K) (hn : TsiNames nm) (hi : Numeric.TsiIInput nm input)
+    (habs : ∀ c ∈ cs, Numeric.TsiIAbsent nm c)
+    (hnone : ∀ j, j < cs.length → j < t0 → readingByCandle (cs.getD j default) input = .none)
+    (hnum : ∀ j, j < cs.length → t0 ≤ j → readingByCandle (cs.getD j default) input = .num (r (j - t0))) :
+    ∃ rows : List (Numeric.TsiIRow K), rows.length = cs.length ∧
+      engineCalc (mkTop (.tsi (p : Int) (s : Int) input : Kind K) nm n) cs
+        = .ok (Numeric.decoWith (Numeric.tsiIOut nm) cs rows) ∧
+      ∀ j, j < cs.length → rows.getD j (none, .none) = Numeric.tsiIRowAt n p s t0 r j :=
+  Numeric.tsi_inputs_rows p s hp hs nm input n t0 cs r hn hi habs hnone hnum
+end Hex.C06
+
+namespace Hex.C06
+
+/-- **C06, ADX over every candle list** (foreign readings allowed; ADX has no input to shift) -/
+theorem C06_ADX_inputs_holds : Numeric.C06AdxStatement := Numeric.c06_adx_inputs
+
+theorem adx_inputs_readings {K : Type} [Field K] [LinearOrder K] [IsStrictOrderedRing K] [LawfulPyF K]
+    (p sg : Nat) (nm : String) (n : Nat) (cs : List (Candle K))
+    (hp : 1 ≤ p) (hg : 1 ≤ sg) (hn : AdxNames nm)
+    (habs : ∀ c ∈ cs, ∀ k ∈ Numeric.adxI_names nm, dlookup k c.inds = none ∧ dlookup k c.subs = none) :
+    ∃ out : List (Candle K),
+      engineCalc (mkTop (.adx (p : Int) (sg : Int) : Kind K) nm n) cs = .ok out ∧
+      out.length = cs.length ∧
+      ∀ j, j < cs.length → Numeric.AdxCandleOK nm n p sg cs j (out.getD j default) :=
+  Numeric.c06_adx_inputs_readings p sg nm n cs hp hg hn habs
 
 end Hex.C06
